@@ -1130,7 +1130,13 @@ impl<'a> GeneratorState<'a> {
 
     fn generate_strobe_statement(&mut self, expr: &Expr, pos: usize) -> Result<(), Error> {
         match expr {
-            Expr::Identifier(name, _) => {
+            Expr::Identifier(name, sub) => {
+                // The strobe goes to the pointer's address: a subscript would be dropped
+                if !matches!(**sub, Expr::Nothing) {
+                    return Err(self
+                        .compiler_state
+                        .syntax_error("No subscript is allowed in strobe", pos));
+                }
                 // X, Y and unknown names are not variables
                 let v = match self.compiler_state.variables.get(name) {
                     Some(v) => v,
